@@ -180,13 +180,17 @@ AlgoStepsHold == [][ /\ \A o \in bkt' \ bkt : AlgoUploadStepOK(bkt, Files(nseg),
 (* ---- mutating bucket call before which the bucket goes away; 0 = none; one entry per run)            *)
 CasesFile == IF "VERIF_CASES" \in DOMAIN IOEnv THEN IOEnv.VERIF_CASES ELSE "cases.ndjson"
 MaxMut == MaxSeg + 5       \* >= mutating calls of any procedure (delete: meta, files, mark, 2 directory markers)
-CrashSeqs == UNION { [1..k -> 1..MaxMut] : k \in 0..CaseCrashes }
-DenyOpts(n) == { [obj |-> "none", times |-> 0] } \cup { [obj |-> o, times |-> k] : o \in {"index"} \cup { SegNames[i] : i \in 1..n }, k \in MaxDeny }
-CaseSet == { [proc |-> p, nseg |-> n, conc |-> c, pre |-> q, crashes |-> cr, deny |-> d] : d \in DenyOpts(MaxSeg),
-               p \in Procs, n \in 1..MaxSeg, c \in BOOLEAN, q \in {"empty", "complete", "complete+mark", "partial", "partial+mark", "complete+marks", "partial+marks"},
-               cr \in CrashSeqs }
-CaseOK(c) == c.pre \in Pres(c.proc) /\ (c.conc => c.proc \in {"upload", "upload_prom", "ship"})
-             /\ \A i \in DOMAIN c.crashes : c.crashes[i] <= c.nseg + 5
-             /\ (c.deny.obj # "none" => c.proc # "delete" /\ c.crashes = <<>> /\ c.deny.obj \in {"index"} \cup { SegNames[kk] : kk \in 1..c.nseg })
+CrashSeqs(n) == UNION { [1..k -> 1..(n + 5)] : k \in 0..CaseCrashes }
+UpProcs == {"upload", "upload_prom", "ship"}
+ConcOf(p) == IF p \in UpProcs THEN BOOLEAN ELSE {FALSE}
+DenyObjs(n) == {"index"} \cup { SegNames[k] : k \in 1..n }
+(* crash cases: every procedure / pre-state / crash sequence, no denial *)
+CrashCases == UNION { { [proc |-> p, nseg |-> n, conc |-> c, pre |-> q, crashes |-> cr, deny |-> [obj |-> "none", times |-> 0]] :
+                          c \in ConcOf(p), q \in Pres(p), cr \in CrashSeqs(n) } : p \in Procs, n \in 1..MaxSeg }
+(* denial cases: uploading procedures only, no crash; the denied object is the index or one of the block's segments *)
+DenyCases == UNION { { [proc |-> p, nseg |-> n, conc |-> c, pre |-> "empty", crashes |-> <<>>, deny |-> [obj |-> o, times |-> k]] :
+                         c \in ConcOf(p), o \in DenyObjs(n), k \in MaxDeny } : p \in Procs \ {"delete"}, n \in 1..MaxSeg }
+CaseSet == CrashCases \cup DenyCases
+CaseOK(c) == TRUE
 ASSUME ndJsonSerialize(CasesFile, SetToSeq({ c \in CaseSet : CaseOK(c) }))
 =============================================================================
